@@ -14,6 +14,7 @@ import IclModel.Build
 import IclModel.Gen.Cp037
 import IclModel.Gen.Split
 import IclModel.ApiWire
+import IclModel.FileOKCheck
 open Icl Icl.Wire
 
 def findRec (n : String) : Option RecLayout := Gen.all.find? (fun L => L.name == n)
@@ -131,6 +132,11 @@ def handle (line : String) : String :=
       match L.parseRec id ⟨2000, 1, 1⟩ (fromHex h) {} with
       | .panic => "panic"
       | .done v => "ok " ++ dumpVals (fieldKinds L) v
+  | ["fileok", lp, ebc, tree] =>
+    -- the decidable part of the premise of the C01 reassembly theorems, on the regenerated model
+    if Icl.C01.fileOKb (theModel false ⟨2000, 1, 1⟩) { lp := lp == "1", ebcdic := ebc == "1" } (parseTree tree) then "ok" else "fail"
+  | ["fileokwhy", lp, ebc, tree] =>
+    Icl.C01.fileOKwhy (theModel false ⟨2000, 1, 1⟩) { lp := lp == "1", ebcdic := ebc == "1" } (parseTree tree)
   | ["api", h] => Icl.Api.Wire.runApi h
   | ["apifrom", st, h] => Icl.Api.Wire.runApiFrom st h
   | ["apiconc", st, rq, sc] => Icl.Api.Wire.runConc st rq sc
